@@ -407,7 +407,8 @@ CATEGORICAL = 0.0    # probability of a categorical leaf (an IndexedArray with _
 
 def _named(rng, T):
     if NAMES and rng.random() < NAMES:
-        return T + (rng.choice(["Pt", "Vec"]),)
+        # (mostly plain identifiers; now and then a name that is not one -- it must be spelled out in the general form)
+        return T + (rng.choice(["Pt", "Vec", "Pt", "Vec", "_q9", "x_1", "Vec[2]", "a^b", "Pair]", "9lives", "a-b", "a`b", "int64", "var", "Zz{"]),)
     return T
 
 
@@ -458,9 +459,18 @@ def gen_leaf(rng, dtype, small=True):
         if r < 0.2:
             return 0.0
         return float(rng.randint(-8, 8)) / 2
+    if EXTREME_P and rng.random() < EXTREME_P:
+        # values at the ends of the type's range (set by the sorting families: order by the type's own comparison)
+        bits = int(dtype.lstrip("uint"))
+        if dtype.startswith("uint"):
+            return rng.choice([0, 2 ** bits - 1, 2 ** bits - 2, 2 ** (bits - 1), 2 ** (bits - 1) - 1, 2 ** (bits - 1) + 5, 3])
+        return rng.choice([-2 ** (bits - 1), 2 ** (bits - 1) - 1, -2 ** (bits - 1) + 1, 2 ** (bits - 1) - 2, -1, 0, 3])
     if dtype.startswith("uint"):
         return rng.randint(0, 9)
     return rng.randint(-5, 9)
+
+
+EXTREME_P = 0.0
 
 
 STR_ALPHABET = "abAB z"
@@ -768,6 +778,8 @@ class Enc:
                 if lens[i] == 0 and rng.random() < 0.3:
                     # an empty list may point anywhere (documented: only checked when start != stop)
                     starts[i] = stops[i] = rng.randint(0, 5)
+            if rng.random() < 0.08:
+                stops = stops + [rng.randint(0, 5) for _ in range(rng.randint(1, 2))]     # (stops may be longer than starts)
             return LA(width, starts, stops, content)
         if k == "option":
             n = len(values)
